@@ -62,9 +62,12 @@ CHECKS = {
  "C12": dict(level="exploration", technique="property-based testing (rapid) with an instrumented compile-and-run oracle: the flagged expression of every definite-claim diagnostic is wrapped in a claim monitor and executed over complete grids",
    text="Kernels for sloppyLen, badCond, offBy1, nilValReturn, dupSubExpr/dupArg and caseOrder (incl. user-defined len, impure operands with changing values, maps, nil cases) are analysed; each definite claim (always true/false, always panics, always nil, same value, unreachable case) is compiled into a monitor and must hold in every execution of the grid.",
    note="Only definite claims are judged ('suspicious' is not a claim); the Go runtime is the reference.", ref="4/C12"),
+ "C04": dict(level="exploration", technique="randomised schedule exploration under the Go race detector (rapid): generated start orders and concurrency bounds over a replica of the CLI's per-file fan-out, parallel go/analysis passes, and -race CLI binaries, each compared with the sequential run",
+   text="Race-instrumented builds: a replica of checkFile runs the 107 long-lived checkers concurrently under generated start orders and semaphore sizes; 2-6 analyzer passes run in parallel goroutines with the cache enabled; the -race CLI runs with several -concurrency / GOMAXPROCS values. Results must equal the sequential run and the race detector must stay silent.",
+   note="Interleavings are sampled, not enumerated: absence of races is shown only for the executions explored; the race detector's happens-before analysis reports conflicting accesses that occur in a run largely independent of timing. The analyzer-parallel part constructs all hand-written checkers plus four rule groups per pass.", ref="4/C04 and 5"),
 }
 
-NOT_YET = {"C04": "check under construction in this revision (race-detector harness); see DESIGN.md section 4/C04"}
+NOT_YET = {}
 
 def main():
     props = [json.loads(l) for l in open(os.path.join(ROOT, "properties.jsonl"))]
